@@ -211,3 +211,11 @@ VARIANTS += [
       "            home_streak_min, \"away_streak_min\", 1, ll)", "fire",
       "D7.3", "seed C07-away-streak-min-stored-from-home"),
 ]
+
+VARIANTS += [
+    V("upper-bound-separation-inside-max", E,
+      "        return (days * n * (3 + max(1, short) + sep)) + (n * short)",
+      "        return (days * n * (3 + max(1, short + sep))) + (n * short)",
+      "fire", "D7.7", "seed C07-upper-bound-separation-inside-max: the "
+      "cyclic-host family exceeds the bound"),
+]
